@@ -66,6 +66,12 @@ def objective_value(spec, o, P):
     return None
 
 
+def nonlinear(spec):
+    """the objective is a non-linear integer term (linear / polynomial cost functions integrate to products of unknowns)"""
+    return any((w.get("cost") or {}).get("kind") in ("linear", "poly") for w in spec.get("workers", [])) and \
+        any(o["kind"] == "ResourceCost" or o["kind"].endswith("Indicator") for o in spec.get("objectives", []))
+
+
 def direction(o):
     k = o["kind"]
     if k in ("StartLatest", "ResourceUtilization", "MaximizeMaxBufferLevel", "MaximizeIndicator"):
@@ -251,7 +257,7 @@ def run_opt(case):
                           else "better-than-any-valid",
                           {"objective": "+".join(o["kind"] for o in spec["objectives"]),
                            "optimizer": cfg.get("optimizer", "incremental"), "priority": cfg.get("optimize_priority"),
-                           "has_buffer": bool(spec.get("buffers"))},
+                           "has_buffer": bool(spec.get("buffers")), "nonlinear_objective": nonlinear(spec)},
                           {"returned": got, "reference": ref, "valid_candidates": nvalid})
     else:
         acc.count(acc.clauses, "C07.optimum_eq_bruteforce:B")
@@ -262,7 +268,7 @@ def run_opt(case):
         acc.violation("C07.better_schedule_exists", "suboptimal",
                       {"objective": "+".join(o["kind"] for o in spec["objectives"]),
                        "optimizer": cfg.get("optimizer", "incremental"), "priority": cfg.get("optimize_priority"),
-                       "has_buffer": bool(spec.get("buffers"))},
+                       "has_buffer": bool(spec.get("buffers")), "nonlinear_objective": nonlinear(spec)},
                       {"returned": got, "better_schedule": {n: [t["scheduled"], t["start"], t["end"]]
                                                             for n, t in better["tasks"].items()},
                        "better_indicators": better["indicators"]})
